@@ -25,23 +25,23 @@ TECHNIQUE = {
     "C01": "sibling-interpreter agreement by dispatch recovery (Operator.shape / _pyrtl templates / _pyeval / NIR builder), "
            "f-string template taint analysis (raw vs normalised operand holes), partial evaluation of Operator.shape with "
            "symbolic widths compared in max-plus normal form, dunder/override table cross-check, window polynomials of "
-           "constant-folded part selects",
+           "constant-folded part selects; path-summary comparison of the default value transformers, casts and pattern normalisation with reference functions",
     "C02": "template recovery of the generated switch/assignment code, statement-order (CFG dominance) rules for reset-then-"
            "statements, window arithmetic of the three assignment walkers in polynomial normal form with entry-clip "
-           "detection, masked read-modify-write idiom check, per-domain case-list completeness",
+           "detection, masked read-modify-write idiom check, per-domain case-list completeness; path-summary comparison of the control-flow builder (If/Switch/FSM) with reference functions; mask-passing and current/next mode discipline of the value compilers",
     "C03": "call-site resolution of clock/reset wakers (polarity and domain arguments, local alias resolution), "
-           "who-handles-what tables of the fragment transformers (memory ports, enables, resets), reset_less guards",
+           "who-handles-what tables of the fragment transformers (memory ports, enables, resets), reset_less guards; literal clock-edge rule of clocked netlist cells; per-fragment transformer state restored (save/restore typestate); rebuild completeness of transformed fragments",
     "C04": "operator-universe exhaustiveness and table agreement between the NIR builder and the RTLIL emitter (cell name, "
            "signedness flags, operand order), path summaries per operator with infeasible-path pruning, cache-key "
            "completeness of memoised emitters",
     "C05": "must-pass-through (CFG) of settle/step calls in the testbench context, evaluator/assignment walker rules shared "
-           "with C01/C02 restricted to the testbench evaluator",
+           "with C01/C02 restricted to the testbench evaluator; path-summary comparison of the trigger machinery with reference functions",
     "C06": "CFG path rule of the cycle detector (busy set, raise condition), check-then-record typestate of driver and I/O "
-           "bookkeeping, call-order rule (cycle check before net resolution), per-bit dependency tables per cell kind",
+           "bookkeeping, call-order rule (cycle check before net resolution), per-bit dependency tables per cell kind; asynchronous-reset edges and busy-mark discipline of the cycle detector",
     "C07": "writer-side table check of every emitted RTLIL cell (parameter = width of the connected operand, names through "
-           "the de-duplicating allocator), symbolic width equalities",
+           "the de-duplicating allocator), symbolic width equalities; path-summary comparison of net-flow routing and I/O directions with reference functions",
     "C08": "who-may-write analysis of simulator state (curr/next), commit ordering by CFG reachability, container-kind "
-           "inference for iteration order, pending-value merge base",
+           "inference for iteration order, pending-value merge base; path-summary comparison of the trigger state machine, engine commit and simulator front end with reference functions; waker persistence typestate",
     "C09": "container-kind inference: every for/comprehension over a hash-ordered container reaching emitted output is "
            "flagged unless sorted or exempt by table; reset re-initialisation typestate; archive time-stamp rule",
     "C10": "normalisation-path rules of Signal/Const construction (every init value passes through the normaliser), "
@@ -54,18 +54,18 @@ TECHNIQUE = {
            "indices against constructor arithmetic, abstract interpretation of the Gray helpers over GF(2)-affine bit "
            "vectors for pointer widths 1..33, synchroniser stage-count ordering resolved from call sites and defaults",
     "C14": "flip-involution table (which accessors flip), connect() bookkeeping path rules, sibling agreement between "
-           "Signature/FlippedSignature members",
+           "Signature/FlippedSignature members; sibling agreement on walking member dimensions (create/flatten/is_compliant/connect/flipped proxy); path-summary comparison of flipping with reference functions",
     "C15": "View/Const twin agreement by path summaries with bit windows in polynomial normal form, accumulator idiom "
            "check of layout offsets, strided-slice contiguity by finite difference, flag-operator tables, assignment "
-           "window rules shared with C02",
+           "window rules shared with C02; class-level state read-only (alias analysis of `cls.` tables); enum member constant stored by value",
     "C17": "Module-DSL elaborate() analyser of the CDC primitives: stage chains, domain placement, forwarded parameters",
     "C18": "field-wise agreement of port slicing/concatenation/inversion, sibling agreement of the three buffer kinds "
-           "(direction checks, domain placement), I/O use check-then-record shared with C06",
+           "(direction checks, domain placement), I/O use check-then-record shared with C06; rebuild completeness of transformed I/O buffers; single-result rule of port composition; reference semantics of IOValue indexing",
     "C19": "CFG check-then-commit of ResourceManager.request over a closure supergraph (or snapshot/rollback), dominance "
            "of the clash test, order preservation of pin lists, Jinja constraint-template slot analysis, writer/reader "
-           "agreement of net names",
+           "agreement of net names; purity of map_names, connector prefix for both I/O forms; reference semantics of Clock/Pins",
     "C20": "format-spec handling paths (parse before use), template recovery of generated print/assert code (whole-condition "
-           "truth test), control-inserter coverage of print/assert domains",
+           "truth test), control-inserter coverage of print/assert domains; every-domain-compiled rule of the fragment compiler; reference semantics of Print/Property construction",
 }
 
 def main():
